@@ -119,7 +119,11 @@ def body(run, sym, sc):
     run.sample(dict(scenario=sc, variables=sp.dim - 1), cap=2)
 
 
-worker = functools.partial(kindl.guarded_worker, PID, body)
+def _nonaffine(sc, e):
+    return [dict(scenario=dict(sc, mode="dispersion"), obligation="analytic_equals_closed_form(data-dependent branch)", special=str(e))]
+
+
+worker = functools.partial(kindl.guarded_worker, PID, body, on_nonaffine=_nonaffine)
 
 
 # ---------------------------------------------------------------------------
@@ -230,6 +234,13 @@ def replay(rec):
         return dict(obligation=ob, errors=errs, ratios=ratios, need=">= 6 per halving", confirmed=bool(min(ratios) < 6.0))
     sc = rec["scenario"]
     ny, nx = sc["ny"], sc["nx"]
+    if "q" not in rec:
+        best = None
+        for qf in kindl.special_fields(ny, nx):
+            r_ = replay(dict(rec, q=qf.tolist()))
+            if best is None or r_["max_rel_discrepancy"] > best["max_rel_discrepancy"]:
+                best = dict(r_, special_source=qf.tolist())
+        return best
     tol = kindl.REPLAY_TOL[sc["precision"]]
     q = np.array(rec["q"], float)
     bg = float(rec.get("bg", 0.3))
